@@ -601,8 +601,16 @@ func shapeOf(t *rapid.T, canon any) any {
 		}
 		return append([]string{}, v...)
 	case int64:
-		k := rapid.IntRange(0, 9).Draw(t, "int_shape")
+		k := rapid.IntRange(0, 13).Draw(t, "int_shape")
 		switch {
+		case k == 10 && int64(int16(v)) == v:
+			return int16(v)
+		case k == 11 && v >= 0 && int64(uint16(v)) == v:
+			return uint16(v)
+		case k == 12 && v >= 0 && int64(uint8(v)) == v:
+			return uint8(v)
+		case k == 13 && v >= 0 && int64(uint(v)) == v:
+			return uint(v)
 		case k <= 1:
 			return v
 		case k == 2 && int64(int(v)) == v:
